@@ -51,8 +51,13 @@ type c08Case struct {
 
 func c08Build(kind int, plen int) c08Case {
 	pay := verifBytes("pay", 5)[:plen]
-	src4, dst4 := net.IP(verifBytes("src", 4)), net.IP(verifBytes("dst", 4))
-	src6, dst6 := net.IP(verifBytes("src6", 16)), net.IP(verifBytes("dst6", 16))
+	src4, dst4 := net.IP{10, 200, 3, 254}, net.IP{172, 16, 255, 1}
+	src6, dst6 := net.IP{0x20, 1, 0xd, 0xb8, 0, 0, 0, 0, 0xff, 0xfe, 0, 0, 0, 0, 0, 1}, net.IP{0xfe, 0x80, 0, 0, 0, 0, 0, 0, 0x12, 0x34, 0x56, 0x78, 0x9a, 0xbc, 0xde, 0xf0}
+	if verifParam("sym") >= 1 {
+		// thorough: addresses symbolic too
+		src4, dst4 = net.IP(verifBytes("src", 4)), net.IP(verifBytes("dst", 4))
+		src6, dst6 = net.IP(verifBytes("src6", 16)), net.IP(verifBytes("dst6", 16))
+	}
 	opts := gopacket.SerializeOptions{FixLengths: true, ComputeChecksums: true}
 	buf := gopacket.NewSerializeBuffer()
 	ip4 := &IPv4{Version: 4, IHL: 5, TTL: verifU8("ttl"), Id: verifU16("id"), SrcIP: src4, DstIP: dst4}
